@@ -5,7 +5,10 @@ Extracted from the AST of the *current* source (anything else raises TranslatorE
   * module constants  MAX_BUCKET_SIZE, NODE_STATUS_GOOD / UNKNOWN / BAD            (integer literals)
   * the identifier width: the "0<W>b" format literal of id_to_binary_string; Bucket.generate_id must use the same W in
     every integer literal that denotes a width (`160 - len(...)`, "0160b") and "0<W/4>X" for the hex form
-  * Node.status: the literal T of the first test `self.failed >= T` whose body returns NODE_STATUS_BAD
+  * Node.status: the whole decision list in source order (`if <test>: return CODE` statements and a final return that may be
+    a conditional expression); each test is classified as the failure-count test `self.failed >= T` or a contact-time test;
+    the model evaluates this generated list, so the ORDER of the tests is taken from the source
+  * closest_nodes: the default of max_nodes
   * Bucket.add: the literal R of `n.rtt / node.rtt >= R` (must be integral), and that the insertion guard is
     `len(self.nodes) < self.max_size` / the eviction guard `len(self.nodes) >= self.max_size`
   * Bucket.split: the refusal test is `len(self.nodes) < self.max_size`
@@ -90,19 +93,61 @@ def extract() -> dict:
             if re.fullmatch(r"0\d+[xX]", s) and int(s[1:-1]) * 4 != width:
                 raise TranslatorError(f"Bucket.generate_id: format {s!r} disagrees with width {width}")
 
-    # Node.status threshold
+    # Node.status: decision list in source order
     node_cls = _cls(tree, "Node")
     status = _fn(node_cls.body, "status", "Node")
-    thr = None
+    codes = {"NODE_STATUS_GOOD": consts["NODE_STATUS_GOOD"], "NODE_STATUS_UNKNOWN": consts["NODE_STATUS_UNKNOWN"],
+             "NODE_STATUS_BAD": consts["NODE_STATUS_BAD"]}
+    thr_seen = []
+
+    def test_kind(t):
+        """True = tests the failure count (`self.failed >= T`), False = a contact-time test (mentions last_response /
+        last_query and not `failed`)"""
+        if isinstance(t, ast.Compare) and _is_self_attr(t.left, "failed") and len(t.ops) == 1 \
+                and isinstance(t.ops[0], ast.GtE):
+            thr_seen.append(_const_int(t.comparators[0], "Node.status failed threshold"))
+            return True
+        if isinstance(t, ast.Compare) and len(t.ops) == 1 and isinstance(t.ops[0], ast.LtE) \
+                and _is_self_attr(t.comparators[0], "failed"):
+            thr_seen.append(_const_int(t.left, "Node.status failed threshold"))
+            return True
+        names = {n.attr for n in ast.walk(t) if isinstance(n, ast.Attribute)}
+        if "failed" in names:
+            raise TranslatorError("Node.status: a test mixes `failed` with other conditions: " + ast.dump(t)[:100])
+        if names & {"last_response", "last_query", "last_queries", "last_contact"}:
+            return False
+        raise TranslatorError("Node.status: unrecognised test " + ast.dump(t)[:100])
+
+    def code_of(e):
+        if isinstance(e, ast.Name) and e.id in codes:
+            return codes[e.id]
+        raise TranslatorError("Node.status: returns something that is not a status constant: " + ast.dump(e)[:80])
+
+    rules, default = [], None
+
+    def ret_expr(e):
+        nonlocal default
+        while isinstance(e, ast.IfExp):
+            rules.append((test_kind(e.test), code_of(e.body)))
+            e = e.orelse
+        default = code_of(e)
+
     for st in status.body:
-        if isinstance(st, ast.If) and isinstance(st.test, ast.Compare) and _is_self_attr(st.test.left, "failed") \
-                and len(st.test.ops) == 1 and isinstance(st.test.ops[0], ast.GtE) \
-                and len(st.body) == 1 and isinstance(st.body[0], ast.Return) \
-                and isinstance(st.body[0].value, ast.Name) and st.body[0].value.id == "NODE_STATUS_BAD":
-            thr = _const_int(st.test.comparators[0], "Node.status failed threshold")
-            break
-    if thr is None:
-        raise TranslatorError("Node.status: `if self.failed >= T: return NODE_STATUS_BAD` not found")
+        if isinstance(st, ast.Expr) and isinstance(st.value, ast.Constant):      # docstring
+            continue
+        if isinstance(st, ast.Assign):                                            # now = time.time()
+            continue
+        if default is not None:
+            raise TranslatorError("Node.status: statements after the final return")
+        if isinstance(st, ast.If) and not st.orelse and len(st.body) == 1 and isinstance(st.body[0], ast.Return):
+            rules.append((test_kind(st.test), code_of(st.body[0].value)))
+        elif isinstance(st, ast.Return):
+            ret_expr(st.value)
+        else:
+            raise TranslatorError("Node.status: unsupported statement " + ast.dump(st)[:100])
+    if default is None or not thr_seen or len(set(thr_seen)) != 1:
+        raise TranslatorError("Node.status: no single `self.failed >= T` test / no final return")
+    thr = thr_seen[0]
 
     # Bucket.add guards and rtt ratio
     add = _fn(bucket.body, "add", "Bucket")
@@ -166,7 +211,15 @@ def extract() -> dict:
     if strict is None:
         raise TranslatorError("closest_nodes: break test `len(nodes) > max_nodes` (or >=) not found")
 
-    return {"maxBucketSize": consts["MAX_BUCKET_SIZE"], "idWidth": width, "statusGood": consts["NODE_STATUS_GOOD"],
+    # closest_nodes default of max_nodes
+    cargs = [a.arg for a in cn.args.args]
+    if "max_nodes" not in cargs:
+        raise TranslatorError("closest_nodes: parameter max_nodes not found")
+    dflt = cn.args.defaults[len(cn.args.defaults) - (len(cargs) - cargs.index("max_nodes"))]
+    default_k = _const_int(dflt, "closest_nodes max_nodes default")
+
+    return {"statusRules": rules, "statusDefault": default, "closestDefaultK": default_k,
+            "maxBucketSize": consts["MAX_BUCKET_SIZE"], "idWidth": width, "statusGood": consts["NODE_STATUS_GOOD"],
             "statusUnknown": consts["NODE_STATUS_UNKNOWN"], "statusBad": consts["NODE_STATUS_BAD"],
             "badFailedThreshold": thr, "rttRatio": ratio, "closestBreakStrict": strict}
 
@@ -176,7 +229,10 @@ def translate() -> tuple[str, dict]:
     lines = ["/- GENERATED by tools/gen_c14.py from ipv8/dht/routing.py — do not edit -/",
              "namespace Ipv8.C14.Gen", ""]
     for k, v in c.items():
-        if isinstance(v, bool):
+        if isinstance(v, list):
+            items = ", ".join(f"({'true' if a else 'false'}, {b})" for a, b in v)
+            lines.append(f"def {k} : List (Bool × Nat) := [{items}]")
+        elif isinstance(v, bool):
             lines.append(f"def {k} : Bool := {'true' if v else 'false'}")
         else:
             lines.append(f"def {k} : Nat := {v}")
